@@ -1090,6 +1090,15 @@ class Machine:
                 if src is None and isinstance(a[1], Enum) and self.has_local_next(a[1]):
                     mat = self.materialize(a[1])
                     src = mat.rest() if mat is not None else None
+                if src is None and isinstance(a[1], Enum) and getattr(a[1], "adt", None):
+                    # a collection type of the crate: extend calls its IntoIterator impl
+                    adt_ = a[1].adt
+                    cands = [f_ for f_ in self.fb.all(self.crate) if f_.name.endswith("::into_iter") and f_.trait and "IntoIterator" in f_.trait and
+                             f_.self_ty and mir.norm(f_.self_ty).split("<")[0] == adt_]
+                    if len(cands) == 1:
+                        it_ = self.run(cands[0], [a[1]])
+                        mat = self.materialize(it_) if not isinstance(it_, list) else Iter(it_)
+                        src = mat.rest() if mat is not None else None
                 if src is None:
                     raise Stuck("Vec::extend with a source that cannot be enumerated (%r)" % (a[1],))
                 a0.extend(src)
@@ -1591,18 +1600,29 @@ class Machine:
                              f.self_ty and mir.norm(f.self_ty).split("<")[0] == base]
                     if len(cands) == 1:
                         return self.run(cands[0], [a0], generics=self.unify_impl_generics(cands[0], target, [str(gens[0])] if gens else []))
-            items = drain(a0) if dty.startswith("std::result::Result<") else a0.rest()
-            if dty.startswith("std::result::Result<"):
-                out = []
-                for x in items:
-                    if not isinstance(x, Enum):
-                        return UNKNOWN
-                    if x.variant == 1:
-                        return err(x.fields[0] if x.fields else UNKNOWN)
-                    out.append(x.fields[0])
-                inner = dty[len("std::result::Result<"):]
-                return ok(self._container(inner, out))
-            return self._container(dty, items)
+            def collect_into(ty, items):
+                """FromIterator for Result<C, E> / Option<C> (short-circuiting on the first Err / None, as std does), else the container"""
+                if ty.startswith("std::result::Result<"):
+                    out = []
+                    for x in items:
+                        if not isinstance(x, Enum):
+                            raise Stuck("collect into a Result: an item is undecided")
+                        if x.variant == 1:
+                            return err(x.fields[0] if x.fields else UNKNOWN)
+                        out.append(x.fields[0])
+                    return ok(collect_into(ty[len("std::result::Result<"):], out))
+                if ty.startswith("std::option::Option<"):
+                    out = []
+                    for x in items:
+                        if not isinstance(x, Enum):
+                            raise Stuck("collect into an Option: an item is undecided")
+                        if x.variant == 0:
+                            return none()
+                        out.append(x.fields[0])
+                    return some(collect_into(ty[len("std::option::Option<"):], out))
+                return self._container(ty, items if isinstance(items, list) else list(items))
+            lazy = dty.startswith("std::result::Result<") or dty.startswith("std::option::Option<")
+            return collect_into(dty, drain(a0) if lazy else a0.rest())
         if end == "count":
             return len(a0.rest())
         if end == "last":
